@@ -803,6 +803,13 @@ func (c *CPU) execBlock(y, z int, info *Info) {
 	if rep && again {
 		c.PC -= 2
 		info.Repeat = true
+		if z <= 1 {
+			// while LDIR/LDDR/CPIR/CPDR repeat, silicon takes bits 3/5 from the
+			// high byte of PC (visible only when interrupted mid-operation);
+			// implementations differ, so these two bits are not compared on a
+			// repeating Step (they are on the final one).
+			info.FMask &^= F5 | F3
+		}
 	}
 }
 
